@@ -46,9 +46,21 @@ def showFile (f : File) : String := s!"{f.name}:{showFsH f.actual}:{showFsH f.vi
 def showFolder (F : Folder) : String :=
   s!"{F.name}:{showBool F.deleted}:{showFsH F.actual}:{showFsH F.visible}:{F.scanCd}:{F.restoreCd}[" ++
     ",".intercalate (F.files.map showFile) ++ "]"
+def sortNames (l : List String) : List String := (l.eraseDups).mergeSort (fun a b => decide (a ≤ b))
+
+/-- what the agent sees BY NAME (`describe_state()`): installed software, live folders, live files -/
+def view (n : Node) : String :=
+  let sw := (sortNames (n.sws.map (·.name))).map (fun nm => s!"{nm}={showOpt showSwH (n.seenSw nm)}")
+  let live := n.folders.filter (fun G => !G.deleted)
+  let fo := (sortNames (live.map (·.name))).map (fun F =>
+    let files := (live.filter (fun G => G.name = F)).flatMap (fun G => (G.files.filter (fun x => !x.deleted)).map (·.name))
+    s!"{F}={showOpt showFsH (n.seenFolder F)}[" ++
+      ",".intercalate ((sortNames files).map (fun f => s!"{f}={showOpt showFsH (n.seenFile F f)}")) ++ "]")
+  ",".intercalate sw ++ ";" ++ " ".intercalate fo
+
 def dump (n : Node) : String :=
   s!"P={showPower n.power},{n.startCd},{n.shutCd},{showBool n.resetting},{n.scanCd} S=" ++
-    " ".intercalate (n.sws.map showSw) ++ " F=" ++ " ".intercalate (n.folders.map showFolder)
+    " ".intercalate (n.sws.map showSw) ++ " F=" ++ " ".intercalate (n.folders.map showFolder) ++ " V=" ++ view n
 
 def init : DNode :=
   { n := { power := .on, startDur := 3, startCd := 0, shutDur := 3, shutCd := 0, resetting := false, scanDur := 10, scanCd := 0,
@@ -67,6 +79,9 @@ def parseDOp : List String → Option DOp
   | ["fscreatefile", F, f, force] => do some (.fsCreateFile F f (← parseBool force))
   | ["fscopyfile", sF, f, dF] => some (.fsCopyFile sF f dF)
   | ["dbreplace", F, f, sF] => some (.dbReplace F f sF)
+  | ["folderset", F, h] => do some (.folderSet F (← parseFsH h))
+  | ["dbrestore", pre, dl] => do some (.dbRestore (← parseBool pre) (← parseOpt parseFsH dl))
+  | ["tickdb", pre, dl] => do some (.tickDb (← parseBool pre) (← parseOpt parseFsH dl))
   | _ => none
 
 def parseOp : List String → Option Op
